@@ -39,8 +39,9 @@ structure Ins where
   /-- duration numerator -/
   dur : Int
   /-- the name belongs to the module's set of gate families that commute with themselves
-  (`_SELF_COMMUTING_GATES`); `true` for every name when the module has no such set (the harness reads
-  the set from the source tree with `ast`) -/
+  (`_SELF_COMMUTING_GATES`); `true` for every name when the module has no such set.  The driver computes the
+  flag from the set regenerated from the source tree (`Gen/SchedRule.lean`, `Gen.SchedRule.inSet`);
+  `Lemmas/SchedRuleGen.lean` proves that with these flags `commRules` is the regenerated rule. -/
   sc : Bool
 deriving Repr, DecidableEq
 
@@ -66,8 +67,8 @@ def commRules (a b : Ins) : Bool :=
   else if !a.controls.isEmpty && a.controls == b.controls then true
   else a.targets == b.targets
 
-/-- the literal set `_SELF_COMMUTING_GATES` of `fixes/C05-1.patch` (the harness compares it with the set of
-the tree when the tree has one) -/
+/-- the literal set `_SELF_COMMUTING_GATES` of `fixes/C05-1.patch` (historical; the set of the tree under test
+is `Gen.SchedRule.selfCommuting`, regenerated on every check) -/
 def patchNames : List String :=
   ["X", "Y", "Z", "RX", "RY", "RZ", "S", "T", "H", "SNOT", "SQRTNOT", "PHASEGATE", "IDLE",
    "CNOT", "CX", "CY", "CZ", "CSIGN", "CS", "CT", "CRX", "CRY", "CRZ", "CPHASE", "TOFFOLI",
@@ -248,7 +249,7 @@ structure Cfg where
   shufs : List (List Nat)
   /-- the tree has the repaired `_add_dependency_among_commuting_gates` (parameter `executed`): an approved
   candidate also gets a conflict edge from every instruction of the previous cycles it shares a qubit with
-  (read from the source with `ast` by the harness) -/
+  (the driver takes it from `Gen.SchedRule.conflictFix`, regenerated from the source with `ast`) -/
   fx : Bool := false
 
 /-- the graph the two passes run on (`reverse_graph()` first for ALAP) -/
